@@ -51,11 +51,53 @@ theorem keeps_arityThen {a b : Nat} {k : M Bool} (hk : Keeps k) : Keeps (arityTh
 
 attribute [irreducible] Keeps
 
+theorem keeps_accessField (env : Env) (t : MTy) (f : Nat) : Keeps (accessField env t f) := by
+  unfold Keeps
+  intro st ft st' h
+  unfold accessField at h
+  obtain ⟨t', s1, h1, h2⟩ := bind_ok.mp h
+  obtain ⟨rfl, _⟩ := resolveM_ok h1
+  have key : ∀ (fields : Option (List (Nat × MTy))) (s : St),
+      (match fields with
+        | some fs => (match fs.lookup f with
+          | some ft => pure ft
+          | none => throw .noField)
+        | none => throw .noField : M MTy) s = .ok ft st' → st'.obls = s.obls := by
+    intro fields s hh
+    cases fields with
+    | none => exact (throw_ok.mp hh).elim
+    | some fs =>
+      simp only at hh
+      cases hl : fs.lookup f with
+      | none => simp only [hl] at hh; exact (throw_ok.mp hh).elim
+      | some ft' => simp only [hl] at hh; obtain ⟨_, rfl⟩ := pure_ok.mp hh; rfl
+  exact key _ _ h2
+
+theorem keeps_accessPath (env : Env) : ∀ (p : List Nat) (t : MTy), Keeps (accessPath env t p)
+  | [], t => by simp only [accessPath]; exact keeps_pure _
+  | f :: rest, t => by
+    simp only [accessPath]
+    apply keeps_bind (keeps_accessField _ _ _)
+    intro t'
+    exact keeps_accessPath env rest t'
+
+theorem keeps_inferCtorHead (env : Env) (e : Expr) : Keeps (inferCtorHead env e) := by
+  cases e with
+  | field e' f => simp only [inferCtorHead]; exact keeps_inferCtorHead env e'
+  | ctor ty k args =>
+    simp only [inferCtorHead]
+    split
+    · split <;> first | exact keeps_pure _ | exact keeps_throw _
+    · exact keeps_throw _
+  | _ => simp only [inferCtorHead]; exact keeps_pure _
+termination_by sizeOf e
+
 /-- close a `Keeps` goal about a `do` block built from the primitive steps -/
 macro "keeps_step" : tactic => `(tactic| first
   | exact keeps_pure _ | exact keeps_throw _ | exact keeps_unifyM _ _ _ | exact keeps_freshVar
   | exact keeps_freshInt | exact keeps_freshFloat | exact keeps_resolveM _ | exact keeps_markSignedM _
-  | exact keeps_declareM _ _ _ | exact keeps_rootTy _ _ _ _ | exact keeps_evalTy _ _ | assumption
+  | exact keeps_declareM _ _ _ | exact keeps_rootTy _ _ _ _ | exact keeps_evalTy _ _ | exact keeps_accessField _ _ _
+  | exact keeps_accessPath _ _ _ | exact keeps_inferCtorHead _ _ | assumption
   | (apply keeps_bind) | (apply keeps_arityThen) | split | (intro _))
 
 theorem keeps_binopWith (env : Env) (expected : MTy) (op : BinOp) {left right : MTy → M Bool}
@@ -70,7 +112,6 @@ end RotoV.TcInfer
 namespace RotoV.TcInfer
 open RotoV.Typing RotoV.Unify RotoV.Gen
 
-set_option maxHeartbeats 1600000 in
 mutual
 theorem keepsE (env : Env) (e : Expr) (hc : coreE e = true) : ∀ cx g, Keeps (infer env cx g e) := by
   intro cx g
@@ -81,7 +122,7 @@ theorem keepsE (env : Env) (e : Expr) (hc : coreE e = true) : ∀ cx g, Keeps (i
     | none => simp only [infer]; repeat' keeps_step
     | some b => cases b <;> (simp only [infer]; repeat' keeps_step)
   | boolLit | strLit | unitLit | var _ | const _ | none => simp only [infer]; repeat' keeps_step
-  | neg e | not e | some e | «try» e =>
+  | neg e | not e | some e | «try» e | field e _ | assign _ _ _ e =>
     simp only [coreE] at hc
     have ih := keepsE env e hc
     simp only [infer]
@@ -136,9 +177,33 @@ theorem keepsE (env : Env) (e : Expr) (hc : coreE e = true) : ∀ cx g, Keeps (i
       have ih := keepsE env e hc
       simp only [infer]
       repeat' (first | exact ih _ _ | keeps_step)
-  | field _ _ | mcall _ _ _ | assign _ _ _ _ | cassign _ _ _ _ _ | record _ _
-  | ctor _ _ _ | «match» _ _ | fstr _ => simp [coreE] at hc
+  | ctor ty k args =>
+    simp only [coreE] at hc
+    have ih := keepsArgs env args hc
+    simp only [infer]
+    repeat' (first | exact ih _ _ _ | keeps_step)
+  | record ty fields =>
+    simp only [coreE] at hc
+    have ih := keepsFields env fields hc
+    simp only [infer]
+    repeat' (first | exact ih _ _ _ | keeps_step)
+  | mcall _ _ _ | cassign _ _ _ _ _ | «match» _ _ | fstr _ => simp [coreE] at hc
 termination_by sizeOf e
+
+theorem keepsFields (env : Env) (fs : List Field) (hc : coreF fs = true) :
+    ∀ cx g decl, Keeps (inferFields env cx g fs decl) := by
+  intro cx g decl
+  cases fs with
+  | nil => simp only [inferFields]; repeat' keeps_step
+  | cons f rest =>
+    cases f with
+    | mk n e =>
+      simp only [coreF, Bool.and_eq_true] at hc
+      have ih1 := keepsE env e hc.1
+      have ih2 := keepsFields env rest hc.2
+      simp only [inferFields]
+      repeat' (first | exact ih1 _ _ | exact ih2 _ _ _ | keeps_step)
+termination_by sizeOf fs
 
 theorem keepsArgs (env : Env) (es : List Expr) (hc : coreL es = true) : ∀ cx g ps, Keeps (inferArgsGo env cx g es ps) := by
   intro cx g ps
